@@ -254,7 +254,35 @@ def run_all(d, case, gaf_kind, gfa_kind):
     return out, table
 
 
+def run_big_sequential(case):
+    """A file of more than 100 000 records through the commands that read a GAF front to back (stat, view, sort): plain
+    against BGZF written by pysam."""
+    import pysam
+    from gaftools.cli import stat
+
+    out = {}
+    with core.workdir() as d:
+        core.write_text(d + "/g.gfa", case["gfa"])
+        core.write_text(d + "/in.gaf", "".join(l + "\n" for l in case["gaf"]))
+        pysam.tabix_compress(d + "/in.gaf", d + "/in.gaf.gz", force=True)
+        for kind, path in (("plain", d + "/in.gaf"), ("bgzf", d + "/in.gaf.gz")):
+            r = core.call(stat.run_stat, path, cigar_stat=True, output=d + "/stat.txt")
+            a = ("stat", r[0], core.read_output(d + "/stat.txt", "stat") if r[0] == "ok" else str(r[1])[:200])
+            r, lines = idx.run_view(d, path, d + "/g.gfa", d + "/v.txt")
+            b = ("view", r[0], len(lines or []), (lines or [None])[-1])
+            r = core.cli(["sort", path, d + "/g.gfa"], capture_stdout=True)
+            c = ("sort", r[0], hash(r[1]) if r[0] == "ok" else str(r[1])[:200])
+            out[kind] = (a, b, c)
+    for x, y in zip(out["plain"], out["bgzf"]):
+        core.check(x[1] == "ok", "%s on the plain file of %d records failed: %s", x[0], len(case["gaf"]), x[2:])
+        core.check(x == y, "%s differs between the plain file and its BGZF copy (%d records): %s vs %s", x[0], len(case["gaf"]),
+                   str(x[1:])[:200], str(y[1:])[:200])
+    return core.Result(True, ["records>100000", "pysam_written"])
+
+
 def run_case(case):
+    if case.get("kind") == "big_sequential":
+        return run_big_sequential(case)
     with core.workdir() as d:
         import shutil
 
@@ -332,3 +360,18 @@ def run_case(case):
         cl.append("line_with_trailing_blank")
     cl.append("bgzf_name:" + case.get("bgzf_name", "in.gaf.gz"))
     return core.Result(after and straddle, cl)
+
+
+def enumerations(tier, shard, nshards):
+    if shard != 0:
+        return
+
+    def big():
+        import random
+
+        rnd = random.Random(17)
+        order = [rnd.randrange(len(c08.POOL)) for _ in range(100003)]
+        gaf = [c08.POOL[k].replace("p%d\t" % k, "b%d\t" % i, 1) + "\ttp:A:P\tcg:Z:%s=" % c08.POOL[k].split("\t")[9] for i, k in enumerate(order)]
+        yield {"kind": "big_sequential", "gfa": c08.POOL_GFA, "gaf": gaf}
+
+    yield ("100 003 records: stat, whole-file view and sort on the plain file and on its BGZF copy", big(), True)
